@@ -88,6 +88,15 @@ impl<F: FixedChannelRegion> FixedChannelPlan<F> {
     }
 }
 
+#[cfg(feature = "verif-hooks")]
+impl<F: FixedChannelRegion> FixedChannelPlan<F> {
+    pub(crate) fn verif_plan(&self) -> crate::region::VerifPlan {
+        let mut channel_mask = [0u8; 9];
+        channel_mask.copy_from_slice(self.channel_mask.as_ref());
+        crate::region::VerifPlan { fixed: true, channel_mask, channels: [None; 16] }
+    }
+}
+
 pub(crate) trait FixedChannelRegion: ChannelRegion {
     fn uplink_channels() -> &'static [u32; 72];
     fn downlink_channels() -> &'static [u32; 8];
